@@ -32,6 +32,7 @@ meta = {
         "how": "tools/seedverify.sh in the agent's scratch worktree: clean checkout + patch, go build, whole suite with the demo moved aside, demo with the patch, demo with the patch reverted (-count=3)",
         "result": conf,
     },
+    "notes": open(f"{d}/notes.txt").read().strip() if os.path.exists(f"{d}/notes.txt") else "",
     "checks_run": checks,
     "caught": any(c["exit"] == 1 and c["violation_lines"] > 0 for c in checks),
     "caught_with_failing_input": any(c["exit"] == 1 and any("FAILURE" in o for o in c["output"]) for c in checks),
